@@ -414,12 +414,12 @@ void reb_integrator_trace_bs_step(struct reb_simulation* const r, double dt){
         nbody_ode->derivatives = reb_integrator_trace_nbody_derivatives;
         nbody_ode->needs_nbody = 0;
 
-        // TODO: Support backwards integrations
-        while(r->t < t_needed && fabs(dt/old_dt)>1e-14 ){
+        const double dtsign = old_dt>=0.?1.:-1.;
+        while(dtsign*r->t < dtsign*t_needed && fabs(dt/old_dt)>1e-14 ){
             double* y = nbody_ode->y;
 
             // In case of overshoot
-            if (r->t + dt >  t_needed){
+            if (dtsign*(r->t + dt) >  dtsign*t_needed){
                 dt = t_needed - r->t;
             }
 
@@ -723,6 +723,7 @@ static void reb_integrator_trace_step(struct reb_simulation* const r){
         double t_needed = r->t + r->dt;
         const double old_dt = r->dt;
         const double old_t = r->t;
+        const double dtsign = old_dt>=0.?1.:-1.;
         r->gravity = REB_GRAVITY_BASIC;
         r->ri_trace.mode = REB_TRACE_MODE_FULL; // for collision search
 	reb_integrator_trace_dh_to_inertial(r);
@@ -730,10 +731,10 @@ static void reb_integrator_trace_step(struct reb_simulation* const r){
             case REB_TRACE_PERI_FULL_IAS15:
                 // Run default IAS15 integration
                 reb_integrator_ias15_reset(r);
-                while(r->t < t_needed && fabs(r->dt/old_dt)>1e-14 ){
+                while(dtsign*r->t < dtsign*t_needed && fabs(r->dt/old_dt)>1e-14 ){
                     reb_simulation_update_acceleration(r);
                     reb_integrator_ias15_part2(r);
-                    if (r->t+r->dt >  t_needed){
+                    if (dtsign*(r->t+r->dt) >  dtsign*t_needed){
                         r->dt = t_needed-r->t;
                     }
                     reb_collision_search(r);
@@ -749,7 +750,7 @@ static void reb_integrator_trace_step(struct reb_simulation* const r){
                     struct reb_ode* nbody_ode = NULL;
 
                     double* y;
-                    while(r->t < t_needed && fabs(r->dt/old_dt)>1e-14 ){
+                    while(dtsign*r->t < dtsign*t_needed && fabs(r->dt/old_dt)>1e-14 ){
                         if (!nbody_ode || nbody_ode->length != 6*r->N){
                             if (nbody_ode){
                                 reb_ode_free(nbody_ode);
@@ -772,7 +773,7 @@ static void reb_integrator_trace_step(struct reb_simulation* const r){
                         }
 
                         // In case of overshoot
-                        if (r->t+r->dt >  t_needed){
+                        if (dtsign*(r->t+r->dt) >  dtsign*t_needed){
                             r->dt = t_needed-r->t;
                         }
 
